@@ -442,6 +442,9 @@ func attack(ct *ctrl, first string, s *c16sched) {
 //   stalled_*     a connection that stopped sending in the middle of a message (inside the header, inside a
 //                 body within the limit, inside the body of a message above the limit that is being skipped):
 //                 no command has started, Close does not wait for that client.
+// generous: a slow machine must not look like a deadlock (the wait is only spent when something is wrong)
+const extraWait = 6 * time.Second
+
 func runC16extras(c *runCfg) {
 	id := 0
 	emit := func(class string, nc, returned int, serveNil, hang bool, panics int) {
@@ -478,7 +481,7 @@ func runC16extras(c *runCfg) {
 				select {
 				case <-closed:
 					returned++
-				case <-time.After(stepWait):
+				case <-time.After(extraWait):
 					hang = true
 				}
 			}
@@ -486,7 +489,7 @@ func runC16extras(c *runCfg) {
 				select {
 				case err := <-serveDone:
 					allNil = allNil && err == nil
-				case <-time.After(stepWait):
+				case <-time.After(extraWait):
 					allNil, hang = false, true
 				}
 			}
@@ -536,32 +539,32 @@ func runC16extras(c *runCfg) {
 			srv.ServeConn(context.Background(), conn)
 		}()
 		conn.push(stdStartup)
-		conn.waitIdle(stepWait)
+		conn.waitIdle(extraWait)
 		conn.push(mQuery([]byte("select 1")))
-		conn.waitIdle(stepWait)
+		conn.waitIdle(extraWait)
 		conn.push(st.part)
-		conn.waitIdle(stepWait) // the server waits for the rest of the message
+		conn.waitIdle(extraWait) // the server waits for the rest of the message
 		closed := make(chan struct{}, 1)
 		go func() { srv.Close(); closed <- struct{}{} }()
 		returned, hang, serveNil := 0, false, false
 		select {
 		case <-closed:
 			returned = 1
-		case <-time.After(stepWait):
+		case <-time.After(extraWait):
 			hang = true
 		}
 		select {
 		case err := <-serveDone:
 			serveNil = err == nil
-		case <-time.After(stepWait):
+		case <-time.After(extraWait):
 			hang = true
 		}
 		conn.setEOF()
-		conn.waitFinished(stepWait)
+		conn.waitFinished(extraWait)
 		if returned == 0 {
 			select {
 			case <-closed:
-			case <-time.After(stepWait):
+			case <-time.After(extraWait):
 			}
 		}
 		pmu.Lock()
